@@ -44,7 +44,7 @@ func genGroup(rng *rand.Rand) []grpStep {
 			k := 1 + rng.Intn(nk)
 			if kinds[k] == "trig" || kinds[k] == "ptrig" {
 				for b := 1 + rng.Intn(3); b > 0; b-- { // bursts
-					out = append(out, grpStep{A: "fire", K: k})
+					out = append(out, grpStep{A: []string{"fire", "fire", "fire", "fire3"}[rng.Intn(4)], K: k})
 				}
 			}
 		case c < 65:
@@ -54,7 +54,7 @@ func genGroup(rng *rand.Rand) []grpStep {
 		case c < 92:
 			out = append(out, grpStep{A: "stop"})
 		case c < 96:
-			out = append(out, grpStep{A: "cancelparent"})
+			out = append(out, grpStep{A: []string{"cancelparent", "cancelparent", "expireparent"}[rng.Intn(3)]})
 		default:
 			// registrations racing with the stop: several in a row, then StopAndWait, no quiescence in between
 			if nk < 4 && rng.Intn(3) == 0 {
@@ -88,6 +88,21 @@ func genGroup(rng *rand.Rand) []grpStep {
 func runGroup(t *testing.T, steps []grpStep) ([]Ev, bool, string) {
 	return bubble(t, func(r *Run) {
 		parent, cancelParent := context.WithCancel(context.Background())
+		// the parent may also end by its deadline ("expireparent"): its error is then DeadlineExceeded, not Canceled
+		// (the deadline lies just behind the fake time at which the schedule reaches that step; far away if it has none)
+		until := 1000 * time.Hour
+		acc := time.Duration(0)
+		for _, st := range steps {
+			if st.A == "adv" {
+				acc += time.Duration(st.D) * time.Millisecond
+			}
+			if st.A == "expireparent" {
+				until = acc + time.Millisecond
+				break
+			}
+		}
+		parent, cancelDeadline := context.WithDeadline(parent, time.Now().Add(until))
+		defer cancelDeadline()
 		g := xsync.NewGroup(parent)
 		var mu sync.Mutex
 		tokens := map[int]chan struct{}{}
@@ -138,6 +153,16 @@ func runGroup(t *testing.T, steps []grpStep) ([]Ev, bool, string) {
 					r.emit(Ev{"ev": "fire", "k": st.K})
 					f()
 				}
+			case "fire3": // the trigger function is called from three goroutines at the same moment
+				if f := fires[st.K]; f != nil {
+					r.emit(Ev{"ev": "fire", "k": st.K})
+					for j := 0; j < 3; j++ {
+						go f()
+					}
+				}
+			case "expireparent":
+				r.emit(Ev{"ev": "stop"})
+				time.Sleep(2 * time.Millisecond)
 			case "adv":
 				r.emit(Ev{"ev": "adv", "d": st.D})
 				time.Sleep(time.Duration(st.D) * time.Millisecond)
